@@ -308,6 +308,28 @@ def rule_d(ctx, ix):
         ctx.ob(R, f.construct, 'the link list is not mutated while it is iterated', not (live and mut_inside),
                detail='%s removes links inside the loop over the live link list: every other matching link is skipped' % f.construct,
                where=where(f, lp))
+        if meth == '_data_removed':
+            # which attributes of the removed dataset are looked for in the links: all of them (a link may end in a derived
+            # attribute as well as in a main or coordinate one)
+            from ..util import expand_locals
+            msg_p = f.params[1]
+            inner = [(it2, tg2) for it2, tg2, owner2, kind2 in iterations(f.node)
+                     if (msg_p + '.data') in unparse(expand_locals(f.node, it2)) and owner2 is not lp]
+            if len(inner) != 1:
+                raise AnalysisError('%s: the loop over the attributes of the removed dataset is not recognised' % f.construct)
+            coll = unparse(expand_locals(f.node, inner[0][0])).replace(' ', '')
+            d_ = msg_p + '.data'
+            whole = any(coll == d_ + suf or coll in ('list(%s%s)' % (d_, suf), 'tuple(%s%s)' % (d_, suf))
+                        for suf in ('.components', '.component_ids()', '._components', '._components.keys()'))
+            cats = {c_ for c_ in ('main_components', 'derived_components', 'coordinate_components', 'pixel_component_ids',
+                                  'world_component_ids') if (d_ + '.' + c_) in coll}
+            union = {'main_components', 'derived_components', 'coordinate_components'} <= cats
+            ctx.idiom(R, f.construct + ' attributes', 'every attribute of the removed dataset (main, derived, coordinate) is looked for in the links',
+                      accepted=whole or union, absent=bool(cats) and not union,
+                      detail_absent='%s looks only for %s of the removed dataset in the links (`%s`): a link that ends in one of its '
+                                    'other attributes (e.g. a derived one) stays registered after the dataset left, and the other '
+                                    'datasets keep attributes derived from it' % (f.construct, sorted(cats), coll),
+                      shape=coll, where=where(f, lp))
         rm = [c for c in calls_in(f.node) if unparse(c.func) == '%s.remove_link' % s]
         ctx.ob(R, f.construct, 'matching links are removed through remove_link (which recomputes)', bool(rm),
                detail='%s no longer removes the links it found through remove_link: the datasets keep the derived attributes'
